@@ -519,13 +519,46 @@ class FmtGen:
             line = ind + loc + gap() + ty + gap() + nm
             if r.random() < 0.2:
                 line += " (" + r.choice(["q", "abbr"]) + ")"
-            return [line + self.tail()]
+            return [line + self.tail()] + self.body_lines(ind + "  ", docs=True, p=0.2)
+        if k < 0.62 and len(ind) < 8:
+            # anonymous bits / inline struct, bits, enum: bodies that start with attribute / doc lines
+            which = r.choice(["anon", "anon", "struct", "bits", "enum"])
+            loc = r.choice(["0", "$next", "4"]) + gap() + "[+" + r.choice(["1", "2", "4"]) + "]"
+            sub = ind + r.choice(["  ", "  ", "    ", " "])
+            if which == "anon":
+                ls = [ind + loc + gap() + "bits:" + r.choice(["", "  # c"])] + self.body_lines(sub, docs=False, p=0.5)
+            elif which == "enum":
+                ls = [ind + loc + gap() + "enum " + nm + ":" + r.choice(["", "  # c"])] + self.body_lines(sub, docs=True, p=0.5)
+                for i in range(r.choice([1, 2, 3])):
+                    ls.append(sub + "V_%d = %d" % (i, i) + self.tail())
+                    ls += self.body_lines(sub + "  ", docs=True, p=0.25)
+                return ls
+            else:
+                ls = [ind + loc + gap() + which + " " + nm + ":" + r.choice(["", "  # c"])] + self.body_lines(sub, docs=True, p=0.5)
+            inner = []
+            for _ in range(r.choice([1, 2, 3])):
+                ls += self.field(sub, inner)
+            return ls
         if k < 0.80:
             return [ind + "let " + nm + " = " + self.expr(2) + self.tail()]
         if k < 0.90:
             return [ind + "[requires: " + self.expr(2) + "]" + r.choice(["", "  # c", "  # c  "])]
         body = self.field(ind + "  ", names)
         return [ind + "if " + self.expr(1) + ":" + r.choice(["", "  # c", "  # c  "])] + body
+
+    def body_lines(self, ind, docs, p):
+        """documentation / attribute / comment lines at the start of an indented body"""
+        r = self.r
+        if r.random() >= p:
+            return []
+        pool = ['[text_output: "Skip"]', "[requires: this == 0]", '[(cpp) namespace: "n"]  # c', "# comment", ""]
+        if docs:
+            pool = ["-- doc", "-- doc  ", "--", "-- second line"] + pool
+        n = r.choice([1, 1, 2, 3])
+        picked = [r.choice(pool) for _ in range(n)]
+        if docs:    # the grammar wants documentation before attributes
+            picked.sort(key=lambda l: (0 if l.startswith("--") else 1))
+        return [(ind + l) if l else l for l in picked]
 
     def module(self):
         r = self.r
@@ -544,7 +577,14 @@ class FmtGen:
                     head += "(p: UInt:8)"
                 lines.append(head + ":" + r.choice(["", "", "  # h", "  # h  "]))
                 if r.random() < 0.3:
-                    lines.append("  -- type doc" + r.choice(["", "  "]))
+                    lines.append("  -- type doc" + r.choice(["", "", "", "  "]))
+                lines += self.body_lines("  ", docs=False, p=0.3)
+                if r.random() < 0.15:
+                    lines.append("  " + r.choice(["struct", "bits"]) + " Nested:")
+                    lines += self.body_lines("    ", docs=True, p=0.6)
+                    nn = []
+                    for _ in range(r.choice([1, 2])):
+                        lines += self.field("    ", nn)
                 names = []
                 for _ in range(r.choice([1, 2, 2, 3, 5])):
                     lines += self.field("  ", names)
@@ -552,6 +592,7 @@ class FmtGen:
                         lines.append(r.choice(["", "  # standalone", "    -- field doc" + r.choice(["", "", "", "  "])]))
             else:
                 lines.append("enum " + r.choice(["Enum", "Kind"]) + ":" + r.choice(["", "  # h "]))
+                lines += self.body_lines("  ", docs=True, p=0.4)
                 for i in range(r.choice([1, 2, 3, 4])):
                     lines.append("  " + r.choice(["A", "BB", "LONG_NAME", "V"]) + "_%d" % i + r.choice([" ", "  ", "   "]) + "=" +
                                  r.choice([" ", "  "]) + r.choice([str(i), self.expr(1)]) + self.tail())
@@ -578,10 +619,93 @@ class FmtGen:
         tails = ["", "  -- doc", "  -- doc   ", "  # c", "  # c   ", "  --", "  --   ", "  #", "  #   "]
         rows = [("struct Foo:", "  0 [+1]  UInt  a%s", "  1 [+1]  UInt  bb%s"),
                 ("bits Foo:", "  0 [+1]  Flag  a%s", "  1 [+1]  Flag  bb%s"),
-                ("enum Enum:", "  A = 1%s", "  BB = 2%s"),
+                ("enum Enum:", "  AA = 1%s", "  BBB = 2%s"),
                 ("struct Foo:", "  let a = 1%s", "  let bb = 2%s")]
         for h, r1, r2 in rows:
             for t1 in tails:
                 for t2 in tails:
                     out.append(("sweep-row-tails", h + "\n" + (r1 % t1) + "\n" + (r2 % t2) + "\n"))
-        return out
+        return out + sweep_bodies()
+
+
+# ---------------------------------------------------------------------------
+# C11: every kind of indented body with documentation / attribute / comment lines at its start,
+# middle and end (seed independent; appended to FmtGen.sweep by sweep_bodies())
+# ---------------------------------------------------------------------------
+
+_DOC = "-- doc"
+_ATTR = '[text_output: "Skip"]'
+_ATTR2 = '[(cpp) namespace: "x"]'
+_REQ = "[requires: this == 0]"
+
+
+def _ind(lines, n):
+    return [(" " * n + l) if l else l for l in lines]
+
+
+def sweep_bodies():
+    out = []
+    heads_full = [[], [_DOC], [_ATTR], [_DOC, _ATTR], [_DOC, _DOC, _ATTR, _ATTR2], ["# c", _ATTR], [_DOC, "", _ATTR]]
+    heads_attr = [[], [_ATTR], [_ATTR, _ATTR2], ["# c", _ATTR], [_ATTR, "# c"], [_REQ]]      # anonymous bits: attributes only
+    fbodies = [[], [_DOC], [_ATTR], [_DOC, _ATTR], [_DOC, "# c", _REQ]]                      # under a field / enum value
+
+    def add(shape, lines):
+        out.append((shape, "\n".join(lines) + "\n"))
+
+    def fields(kind, fb_first, fb_mid, fb_last, n):
+        ty = "Flag" if kind == "bits" else "UInt"
+        ls = ["0 [+1]  %s  a" % ty] + _ind(fb_first, 2)
+        ls += ["1 [+1]  %s  bb" % ty] + _ind(fb_mid, 2)
+        ls += ["2 [+1]  %s  ccc" % ty] + _ind(fb_last, 2)
+        return _ind(ls, n)
+
+    # 1. top-level struct / bits / enum / external bodies
+    for h in heads_full:
+        for fb in fbodies:
+            for kind in ("struct", "bits"):
+                add("sweep-body-type", ["%s Foo:" % kind] + _ind(h, 2) + fields(kind, fb, [], fb, 2))
+                add("sweep-body-type", ["%s Foo:" % kind] + _ind(h, 2) + fields(kind, [], fb, [], 2))
+            add("sweep-body-enum", ["enum Kind:"] + _ind(h, 2) + _ind(["AA = 1"] + _ind(fb, 2) + ["BB = 2", "CCC = 3"] + _ind(fb, 2), 2))
+        add("sweep-body-external", ["external Ext:"] + _ind(h or [_ATTR], 2))
+    # 2. anonymous bits inside a struct: attributes at the start of the body, field bodies inside, fields after
+    for h in heads_attr:
+        for fb in fbodies:
+            add("sweep-body-anonymous-bits",
+                ["struct Foo:", "  0 [+1]  bits:"] + _ind(h, 4) + fields("bits", fb, [], fb, 4) + ["  1 [+1]  UInt  tail"] + _ind(fb, 4))
+            add("sweep-body-anonymous-bits",
+                ["struct Foo:", "  0 [+1]  UInt  lead"] + _ind(fb, 4) + ["  1 [+1]  bits:  # c"] + _ind(h, 4) + fields("bits", [], fb, [], 4))
+            add("sweep-body-anonymous-bits",
+                ["struct Foo:", "  0 [+1]  bits:"] + _ind(h, 4) + ["    if true:"] + fields("bits", fb, [], fb, 6) + ["    3 [+1]  Flag  z"])
+    # 3. inline struct / bits / enum under a field
+    for h in heads_full:
+        for fb in fbodies[:4]:
+            for kind in ("struct", "bits"):
+                add("sweep-body-inline-type",
+                    ["struct Foo:", "  0 [+4]  %s inner:" % kind] + _ind(h, 4) + fields(kind, fb, [], fb, 4) + ["  4 [+1]  UInt  tail"])
+            add("sweep-body-inline-type",
+                ["struct Foo:", "  0 [+1]  enum kind:"] + _ind(h, 4) + _ind(["AA = 1"] + _ind(fb, 2) + ["BB = 2"], 4) + ["  1 [+1]  UInt  tail"] + _ind(fb, 4))
+            add("sweep-body-inline-type",
+                ["bits Foo:", "  0 [+4]  bits inner:"] + _ind(h, 4) + fields("bits", [], fb, [], 4) + ["  4 [+1]  enum kind:"] + _ind(h, 4) + ["    AA = 1"])
+    # 4. conditional blocks whose members carry indented doc / attribute lines
+    for fb in fbodies:
+        for kind in ("struct", "bits"):
+            add("sweep-body-conditional", ["%s Foo:" % kind, "  0 [+1]  %s  sel" % ("Flag" if kind == "bits" else "UInt"),
+                                           "  if sel == 1:  # c"] + fields(kind, fb, fb, fb, 4) + ["  3 [+1]  UInt  tail"])
+        for h in heads_attr[:4]:
+            add("sweep-body-conditional", ["struct Foo:", "  0 [+1]  UInt  sel", "  if sel == 1:", "    1 [+1]  bits:"] + _ind(h, 6)
+                + fields("bits", fb, [], [], 6) + ["    2 [+1]  UInt  x"] + _ind(fb, 6))
+        for h in heads_full[:5]:
+            add("sweep-body-conditional", ["struct Foo:", "  0 [+1]  UInt  sel", "  if sel == 1:", "    1 [+4]  struct inner:"] + _ind(h, 6)
+                + fields("struct", [], fb, [], 6) + ["    5 [+1]  enum kind:"] + _ind(h, 6) + ["      AA = 1"] + _ind(fb, 8))
+    # 5. nested twice: type definitions inside types, inline types inside inline types, anonymous bits inside inline struct
+    for h in heads_full[:5]:
+        for fb in fbodies[:4]:
+            add("sweep-body-nested", ["struct Outer:"] + _ind(h, 2) + ["  struct Mid:"] + _ind(h, 4) + ["    bits Inner:"] + _ind(h, 6)
+                + fields("bits", fb, [], fb, 6) + ["    0 [+1]  Inner  i"] + _ind(fb, 6) + ["  0 [+1]  Mid  m"] + _ind(fb, 4))
+            add("sweep-body-nested", ["struct Outer:", "  0 [+8]  struct mid:"] + _ind(h, 4) + ["    0 [+4]  struct inner:"] + _ind(h, 6)
+                + fields("struct", fb, [], [], 6) + ["    4 [+1]  bits:"] + _ind([x for x in h if x != _DOC and x != ""], 6)
+                + fields("bits", [], fb, [], 6) + ["  8 [+1]  UInt  tail"])
+            add("sweep-body-nested", ["struct Outer:", "  0 [+1]  UInt  sel", "  if sel == 1:", "    1 [+8]  struct mid:"] + _ind(h, 6)
+                + ["      if true:"] + fields("struct", fb, [], fb, 8) + ["      3 [+1]  bits:"] + _ind([x for x in h if x != _DOC and x != ""], 8)
+                + fields("bits", fb, [], [], 8))
+    return out
